@@ -78,9 +78,12 @@ def apply_variant(v, scratch: Path):
         pf = VERIF / v["patch"]
         if not pf.exists():
             return f"patch file {v['patch']} missing"
-        r = subprocess.run(["patch", "-p1", "-s", "--no-backup-if-mismatch", "-i", str(pf)], cwd=scratch, capture_output=True, text=True)
+        # only the part of the patch that touches what the checks read (src/, pyproject.toml); docs and tests are not copied
+        r = subprocess.run(["git", "apply", "--whitespace=nowarn", "--include=src/*", "--include=pyproject.toml", str(pf)], cwd=scratch, capture_output=True, text=True)
         if r.returncode != 0:
-            return "patch does not apply: " + (r.stdout + r.stderr).strip()[:200]
+            r = subprocess.run(["patch", "-p1", "-s", "--no-backup-if-mismatch", "-i", str(pf)], cwd=scratch, capture_output=True, text=True)
+            if r.returncode != 0:
+                return "patch does not apply: " + (r.stdout + r.stderr).strip()[:200]
         return None
     edits = v.get("edits") or [{"file": v["file"], "old": v["old"], "new": v["new"]}]
     for e in edits:
